@@ -4,7 +4,7 @@ import numpy as np
 from .read import SgzReader
 from .version import SeismicZfpVersion
 from .utils import (pad, int_to_bytes, np_float_to_bytes, np_float_to_bytes_signed, coord_to_index,
-                    WrongDimensionalityError)
+                    bytes_to_double, double_to_bytes, WrongDimensionalityError)
 from .sgzconstants import DISK_BLOCK_BYTES, SEGY_TEXT_HEADER_BYTES
 
 
@@ -86,7 +86,15 @@ class SgzCropper(SgzReader):
         header[4:8] = int_to_bytes(len_zslices)
         header[8:12] = int_to_bytes(len_xlines)
         header[12:16] = int_to_bytes(len_ilines)
-        header[16:20] = np_float_to_bytes_signed(np.int32(self.zslices[zslices_index_range[0]]))
+        z_start = float(self.zslices[zslices_index_range[0]])
+        header[16:20] = np_float_to_bytes_signed(np.int32(z_start))
+        if bytes_to_double(self.headerbytes[92:100]) != 0:
+            # Source already uses the double-precision start/interval fields (which take precedence)
+            header[84:92] = double_to_bytes(z_start)
+        elif z_start != int(z_start):
+            # Cropped start is not a whole number of milliseconds: the integer field cannot hold it
+            header[84:92] = double_to_bytes(z_start)
+            header[92:100] = double_to_bytes(1000.0 * float(self.zslices[1] - self.zslices[0]))
         header[20:24] = np_float_to_bytes_signed(np.int32(self.xlines[xline_index_range[0]]))
         header[24:28] = np_float_to_bytes_signed(np.int32(self.ilines[iline_index_range[0]]))
         header[56:60] = int_to_bytes(compressed_data_length_diskblocks)
